@@ -40,8 +40,8 @@ StreamFails(e) ==
       ELSE IF e.bytes # bytes THEN <<"C07.stream">>
       ELSE IF d.ok THEN (IF e.derr = "" /\ Has(e, "back") /\ Len(e.back) = Len(d.cmds)
                             /\ \A i \in 1..Len(d.cmds) : e.back[i].cid = d.cmds[i].cid /\ ItemMatches(e.dir, e.back[i], d.cmds[i].raw)
-                         THEN <<>> ELSE <<"C07.stream">>)
-      ELSE (IF e.derr = "error" THEN <<>> ELSE <<"C07.stream">>)
+                         THEN <<>> ELSE <<"C07.stream", "C06.decode">>)     \* also C06: decoding yields the spec field values for every CID x direction in the registry
+      ELSE (IF e.derr = "error" THEN <<>> ELSE <<"C07.stream", "C06.decode">>)
 
 Fails(e) == CASE e.ev = "reset" -> <<>>
               [] e.ev = "register" -> RegisterFails(e)
